@@ -52,10 +52,17 @@ RULE = (
     'that does not call fedjax; shuffles -- >=2 items and buffer >=2; mismatch -- '
     'always; repeatable iterator -- >=1 item and >=2 completed passes. '
     'distinct = distinct canonical case JSON.')
+RULE += (
+    ' '
+    'Later widenings: clients listing one feature set in different key orders; byte-string fe'
+    'atures whose width differs between clients (content compared as bytes); interleaved seed'
+    'ed streams of one dataset object; half of the client-dataset streams are built from slic'
+    'es of longer datasets in use.')
 ASSUMPTIONS = [
     'batch preprocessors are deterministic and strictly per-example, and all '
     'clients of one stream share dtype and trailing shape per feature '
-    '(BatchPreprocessor / concat_examples preconditions)',
+    '(BatchPreprocessor / concat_examples preconditions); for byte-string '
+    'features the dtype KIND is shared and the width may differ per client',
     'after trailing empty clients behind an exact batch boundary (or for a '
     'stream of empty clients only) the code emits one extra final batch without '
     'real rows; nothing is lost or duplicated, so a final all-padding batch of '
